@@ -131,6 +131,9 @@ pub struct Model<'a> {
     /// acknowledgements written on the current transport that no completed flush has covered yet
     unflushed_acks: Vec<Owed>,
     expect_delivery: Option<usize>,
+    /// transport on which the client has completely read a broker DISCONNECT that no operation
+    /// has reported yet
+    server_disconnect_read: Option<usize>,
     handle_flight: Vec<Option<usize>>,
     /// (request, session epoch) behind each handle: binds the handle to its flight once the packet
     /// is transmitted later than the operation that returned it
@@ -191,6 +194,7 @@ impl<'a> Model<'a> {
             stale_acks: Vec::new(),
             unflushed_acks: Vec::new(),
             expect_delivery: None,
+            server_disconnect_read: None,
             handle_flight: Vec::new(),
             handle_req: Vec::new(),
             cur_op: None,
@@ -1199,7 +1203,7 @@ impl<'a> Model<'a> {
                 self.on_broker_ack(in_op, FKind::Unsub, *pid, c, false)
             }
             Packet::PingResp => {}
-            Packet::Disconnect { .. } => {}
+            Packet::Disconnect { .. } => self.server_disconnect_read = Some(tr),
             _ => {
                 self.trs[tr].hostile = true;
             }
@@ -1370,7 +1374,14 @@ impl<'a> Model<'a> {
             }
             return;
         }
+        // a broker DISCONNECT that this operation read and reported - under whatever error - is one
+        // of the listed ways to die
+        let by_broker = self.server_disconnect_read == Some(tr) && matches!(rec.res, OpRes::Err(_));
+        if by_broker {
+            self.server_disconnect_read = None;
+        }
         let death = match (&rec.kind, &rec.res) {
+            _ if by_broker => Some("broker-disconnect"),
             (_, OpRes::Err(ErrKind::Transport)) => Some("transport-error"),
             (_, OpRes::Err(ErrKind::Disconnected)) => Some("disconnected"),
             (_, OpRes::Err(ErrKind::InvalidPacket)) => Some("invalid-packet"),
